@@ -4,6 +4,8 @@ CONSTANTS
   Families = {}
   BufSizes = {}
   CompCfgs <- QuickComp
+  XBufSizes = {}
+  XCompCfgs <- QuickComp
   MultiBufSizes = {256, 512, 4096}
   MultiCompCfgs <- ThoroughBig
   BigSizes = {}
